@@ -168,12 +168,19 @@ inductive SsporOp
   | fit (ne nf : Nat) (prefit : Bool) (oracle : List Nat)
   | setN (v : PyCount)
   | updateModes (v : PyCount) (x : Option (Nat × Nat)) (oracle : List Nat)
+  /-- the basis OBJECT the model was built with is fitted by somebody else (`basis.fit(X)` on data of shape `(ne, nf)`:
+  the documented prefit workflow, or another model sharing the object) -/
+  | basisFit (ne nf : Nat)
+  /-- the model is replaced by a copy of itself (`pickle`, `copy.deepcopy`, `copy.copy`) -/
+  | roundTrip
   deriving Repr
 
 def Sspor.step (st : Sspor) : SsporOp → Sspor × Option Err
   | .fit ne nf p o => st.fit ne nf p o
   | .setN v => st.setN v
   | .updateModes v x o => st.updateModes v x o
+  | .basisFit ne nf => let (b, e) := st.basis.fit ne nf; ({ st with basis := b }, e)
+  | .roundTrip => (st, none)
 
 def Sspor.run (st : Sspor) (ops : List SsporOp) : Sspor := ops.foldl (fun s op => (s.step op).1) st
 
